@@ -15,6 +15,7 @@ import (
 func init() {
 	commands["c01"] = func(seed uint64, n int, out, stats string, a []string) { runLedgerMon("C01", seed, n, out, stats) }
 	commands["c02"] = func(seed uint64, n int, out, stats string, a []string) { runLedgerMon("C02", seed, n, out, stats) }
+	commands["c05node"] = func(seed uint64, n int, out, stats string, a []string) { runLedgerMon("C05", seed, n, out, stats) }
 	commands["c06node"] = func(seed uint64, n int, out, stats string, a []string) { runLedgerMon("C06", seed, n, out, stats) }
 }
 
@@ -36,7 +37,10 @@ func runLedgerMon(pid string, seed uint64, n int, out, stats string) {
 		s := seed*1000003 + uint64(i)
 		r := NewRng(s)
 		spec := stdSpec(r)
-		g := &genOpts{Blocks: 20 + r.Intn(60), TxPerBlock: 6, Absences: true, Evidence: r.Intn(3) == 0, Malformed: true, Monitors: true, CheckDeliver: pid == "C06"}
+		g := &genOpts{Blocks: 20 + r.Intn(60), TxPerBlock: 6, Absences: true, Evidence: r.Intn(3) == 0, Malformed: true, Monitors: true, CheckDeliver: pid == "C06", CandAuth: pid == "C05"}
+		if pid == "C05" {
+			g.Weights = map[string]int{"send": 3, "declare": 3, "delegate": 3, "editcand": 10, "editcomm": 6, "candon": 6, "candoff": 6, "unbond": 2, "sethalt": 1, "voteupdate": 1, "createtoken": 1}
+		}
 		h, res, w := genHistory(s, spec, g)
 		blocks += len(h.Blocks)
 		ok := 0
@@ -62,6 +66,10 @@ func runLedgerMon(pid string, seed uint64, n int, out, stats string) {
 		if pid == "C06" {
 			fails = res.C06
 			agree += res.C06Agree
+		}
+		if pid == "C05" {
+			fails = res.C05
+			agree += res.C05Checked
 		}
 		for _, f := range fails {
 			f.Replay = fmt.Sprintf("vharness %s -seed %d -n %d (history %d, seed %d)", pid, seed, n, i, s)
@@ -167,7 +175,7 @@ func orderScenarios(seed uint64, count int, c01, c02, c06 *[]MonitorFailure, che
 				opts.PreTx = func(i int, raw []byte) {
 					n.guard("CheckTx", func() {
 						cs := state.NewCheckState(n.App.VerifStateDeliver())
-						chkCode = transaction.NewExecutorV3(transaction.GetDataV3).RunTx(cs, raw, nil, hh, newSyncMap(), 0, false).Code
+						chkCode = transaction.NewExecutorV3(transaction.GetDataV3).RunTx(cs, raw, nil, checkTxHeight(n), newSyncMap(), 0, false).Code
 					})
 				}
 				opts.PostTx = func(i int, raw []byte, tr TxResult) {
